@@ -30,7 +30,7 @@ func init() {
 
 type seqFailure struct {
 	sig, what, observed, required string
-	input                       any
+	input                         any
 }
 
 func run(t *T) {
